@@ -877,4 +877,67 @@ def C17_shadowOK (sh : Shadow) (s : State) : Bool :=
   ((s.bids.keys ++ Book.keys sh.bids).all fun k =>
     Book.get? sh.bids k == (s.bids.get? k).bind bidProj)
 
+/-! ## converse conditions (what must be accepted) -/
+
+def askFeePayable (info : Info) (grossD : Dec) (gross : Nat) : Bool :=
+  match askFeeAmt info grossD with
+  | .ok f => decide (f ≤ gross)
+  | .err _ => false
+
+def origFeeOK (b : Bid) (bf orig : Nat) : Bool :=
+  match calcFee b orig with
+  | .ok of_ => of_ == 0 || decide (bf ≤ of_)
+  | .err _ => false
+
+def bidFeePayable (info : Info) (b : Bid) (gross : Nat) (improved : Bool) (orig : Nat) : Bool :=
+  match calcFee b gross with
+  | .ok bf => (bf == 0 || info.bidFee.isSome) && (!improved || origFeeOK b bf orig)
+  | .err _ => false
+
+/-- "with the configured fees payable": the contract's own fee computations for this fill
+    succeed, the ask fee does not exceed the proceeds, a bid fee has an account to go to, and
+    at an improved price the fill's fee does not exceed the fee of the fill at the bid price -/
+def feesPayable (info : Info) (b : Bid) (p bp : Dec) (size : Nat) : Bool :=
+  match Dec.total p size with
+  | .ok grossD =>
+    askFeePayable info grossD grossD.trunc &&
+    bidFeePayable info b grossD.trunc (Dec.lt p bp) (product bp size)
+  | .err _ => false
+
+/-- amounts within the 96-bit range of the contract's decimal arithmetic -/
+def matchFits (p bp : Dec) (size : Nat) : Bool :=
+  decide (size < LIM) && decide (product p size < LIM) &&
+  (!Dec.lt p bp || decide (product bp size < LIM))
+
+def C03_ready (s : State) (askId bidId price : String) (size : Nat) : Bool :=
+  match s.asks.get? askId, loadBid s bidId, Dec.parse price with
+  | some a, some b, some p =>
+    (match Dec.parse a.price, Dec.parse b.price with
+     | some ap, some bp =>
+       !ap.neg && !bp.neg && matchFits p bp size && feesPayable s.info b p bp size
+     | _, _ => false)
+  | _, _, _ => false
+
+def C03_mustAccept (s : State) (c : Call) (askId bidId price : String) (size : Nat) : Bool :=
+  c.funds.isEmpty && isCanonicalUuid askId && isCanonicalUuid bidId && price != "" &&
+  C03_conds s c.sender askId bidId price size && C03_whole s bidId price size &&
+  C03_ready s askId bidId price size
+
+
+def C07_askMustAccept (env : Env) (s : State) (c : Call) (id base quote price : String) (size : Nat) : Bool :=
+  infoSane s.info && C07_askConds env s c id base quote price size && base != "" && quote != "" && price != "" &&
+  fundsOk (env.restricted base) c.funds ⟨base, size⟩
+
+def bidFeeFits (info : Info) (quoteSize : Nat) : Bool :=
+  match bidRate info with
+  | some rate => exactMul rate quoteSize && decide (exactFee rate quoteSize < LIM)
+  | none => false
+
+def C07_bidMustAccept (env : Env) (s : State) (c : Call) (id base : String) (fee : Option Coin)
+    (price quote : String) (quoteSize size : Nat) : Bool :=
+  infoSane s.info && C07_bidConds env s c id base fee price quote quoteSize size &&
+  base != "" && quote != "" && price != "" && decide (size < LIM) && decide (quoteSize < LIM) &&
+  bidFeeFits s.info quoteSize &&
+  fundsOk (env.restricted quote) c.funds ⟨quote, quoteSize + feeAmt fee⟩
+
 end Ats.Spec
